@@ -205,9 +205,9 @@ def reg_post(programs):
 
 def c01_jobs(tier):
     if tier == "quick":
-        return [dict(harness="sym_glue", pattern=r"^sym/n4k2m3/[A-Za-z]+/LargestAlge/maxit[01]/ic(/symtol)?$|^symshift/n4k2m3/.*/maxit[01]/|^hist/n3k1m2/.*/maxit[01]/|^sym/n3k1m2/.*/maxit2/ic$|^hist2/n3k1m2/",
+        return [dict(harness="sym_glue", pattern=r"^sym/n4k2m3/[A-Za-z]+/LargestAlge/maxit0/ic(/symtol)?$|^sym/n4k2m3/(LargestMagn|SmallestAlge|BothEnds)/LargestAlge/maxit1/ic$|^symshift/n4k2m3/.*/maxit0/|^symshift/n4k2m3/LargestMagn/.*/maxit1/|^hist/n3k1m2/.*/maxit[01]/|^sym/n3k1m2/.*/maxit2/ic$|^hist2/n3k1m2/",
                      label="symmetric glue (4,2,3) maxit<=1, (3,1,2) maxit<=2, histories incl. a second compute() with other rule / maxit", deadline=280)]
-    return c01_jobs("quick") + [dict(harness="sym_glue", pattern=r"^sym/n(5k2m4|5k3m4|6k1m3|6k2m5)/LargestMagn/LargestAlge/maxit[01]/ic$|^sym/n5k2m4/(BothEnds|SmallestAlge)/LargestAlge/maxit[01]/ic$|^hist/n4k2m3/.*/maxit0/|^sym/n3k1m2/.*/maxit3/ic$|^hist2/n4k2m3/.*-maxit0$",
+    return c01_jobs("quick") + [dict(harness="sym_glue", pattern=r"^sym/n(5k2m4|5k3m4|6k1m3|6k2m5)/LargestMagn/LargestAlge/maxit[01]/ic$|^sym/n5k2m4/(BothEnds|SmallestAlge)/LargestAlge/maxit[01]/ic$|^hist/n4k2m3/.*/maxit0/|^sym/n3k1m2/.*/maxit3/ic$|^hist2/n4k2m3/.*-maxit0$|^sym/n4k2m3/(SmallestMagn|LargestAlge)/LargestAlge/maxit1/ic(/symtol)?$|^sym/n4k2m3/LargestMagn/LargestAlge/maxit1/ic/symtol$|^symshift/n4k2m3/BothEnds/.*/maxit1/",
                                      label="larger sizes (5,2,4) (5,3,4) (6,1,3) (6,2,5) maxit<=1, (3,1,2) maxit 3, histories (4,2,3) [budgeted]", deadline=700, budget=True)]
 
 
@@ -236,7 +236,7 @@ SPECS["C01"] = dict(
 def c02_jobs(tier):
     cs = dict(harness="c02_cshift", pattern=r"^cshift/real-lambda/", label="complex-shift solver: back-transformation and root selection from an arbitrary Ritz state (real eigenvalues, three shifts)", deadline=120)
     if tier == "quick":
-        return [cs, dict(harness="gen_glue", pattern=r"^gen/n5k1m3/[A-Za-z]+/LargestMagn/maxit[01]/ic$|^genshift/n5k1m3/.*/maxit[01]/|^genhist/n5k1m3/.*/maxit0/|^gen/n5k2m4/(LargestMagn/LargestMagn|LargestReal/SmallestReal|LargestMagn/SmallestImag)/maxit0/|^genshift/n5k2m4/.*/maxit0/|^genhist2/.*/maxit0/icC(/shift)?/then-.*-maxit0$|^genhist2/.*/maxit1/icC/then-.*-maxit0$",
+        return [cs, dict(harness="gen_glue", pattern=r"^gen/n5k1m3/[A-Za-z]+/LargestMagn/maxit[01]/ic$|^genshift/n5k1m3/.*/maxit[01]/|^genhist/n5k1m3/.*/maxit0/|^gen/n5k2m4/(LargestMagn/LargestMagn|LargestReal/SmallestReal|LargestMagn/SmallestImag)/maxit0/|^genshift/n5k2m4/.*/maxit0/|^genhist2/.*/maxit0/icC(/shift)?/then-.*-maxit0$|^genfull2/n3k1m3/.*-maxit0$",
                      label="general glue (5,1,3) maxit<=1, (5,2,4) maxit 0, histories incl. a second compute() with other rule", deadline=280)]
     return c02_jobs("quick") + [dict(harness="c02_cshift", pattern=r"^cshift/complex-lambda/", label="complex-shift solver, complex eigenvalue [budgeted; undecided within the caps so far]", deadline=400, cap=(20, 120), budget=True),
                                 dict(harness="gen_glue", pattern=r"^gen/n(5k2m4|6k2m5|6k3m5|7k1m6)/LargestMagn/LargestMagn/maxit[01]/ic$|^gen/n5k2m4/(LargestReal|SmallestImag)/LargestMagn/maxit1/ic$|^genhist/n5k1m3/.*/maxit1/|^genhist2/",
@@ -273,9 +273,9 @@ SPECS["C02"] = dict(
 
 def c05_jobs(tier):
     if tier == "quick":
-        return [dict(harness="sym_glue", pattern=r"^sym/n4k2m3/(LargestMagn|BothEnds)/(LargestMagn|SmallestAlge|SmallestMagn)/maxit[01]/ic$|^sym/n3k1m2/.*/maxit[012]/ic$|^hist/n3k1m2/.*/maxit1/icic$|^hist2/n3k1m2/.*-maxit0$",
+        return [dict(harness="sym_glue", pattern=r"^sym/n4k2m3/(LargestMagn|BothEnds)/(LargestMagn|SmallestAlge|SmallestMagn)/maxit0/ic$|^sym/n4k2m3/LargestMagn/SmallestAlge/maxit1/ic$|^sym/n4k2m3/BothEnds/SmallestMagn/maxit1/ic$|^sym/n3k1m2/.*/maxit[012]/ic$|^hist/n3k1m2/.*/maxit1/icic$|^hist2/n3k1m2/.*-maxit0$",
                      label="symmetric: all sorting rules, accessors, counters; second compute() with maxit 0 / another rule", deadline=200),
-                dict(harness="gen_glue", pattern=r"^gen/n5k1m3/(LargestReal|LargestMagn)/(SmallestReal|SmallestImag)/maxit[01]/ic$|^genshift/n5k1m3/LargestReal/SmallestReal/maxit[01]/|^genhist/n5k1m3/.*/maxit0/|^gen/n5k2m4/LargestReal/SmallestReal/maxit0/|^genshift/n5k2m4/LargestReal/SmallestReal/maxit0/|^genhist2/.*/maxit0/icC(/shift)?/then-.*-maxit0$|^genhist2/.*/maxit1/icC/then-.*-maxit0$",
+                dict(harness="gen_glue", pattern=r"^gen/n5k1m3/(LargestReal|LargestMagn)/(SmallestReal|SmallestImag)/maxit[01]/ic$|^genshift/n5k1m3/LargestReal/SmallestReal/maxit[01]/|^genhist/n5k1m3/.*/maxit0/|^gen/n5k2m4/LargestReal/SmallestReal/maxit0/|^genshift/n5k2m4/LargestReal/SmallestReal/maxit0/|^genhist2/.*/maxit0/icC(/shift)?/then-.*-maxit0$|^genfull2/n3k1m3/.*-maxit0$",
                      label="general: sorting rules, accessors, counters; second compute() with maxit 0 / another rule", deadline=200)]
     return c05_jobs("quick") + [dict(harness="sym_glue", pattern=r"^sym/n5k2m4/LargestMagn/(LargestMagn|SmallestAlge|SmallestMagn)/maxit[01]/ic$|^symshift/n5k2m4/.*/maxit[01]/", label="symmetric (5,2,4) [budgeted]", deadline=700, budget=True),
                                 dict(harness="gen_glue", pattern=r"^gen/n5k2m4/(LargestReal/SmallestReal|LargestMagn/SmallestImag)/maxit1/ic$|^genshift/n5k2m4/.*/maxit1/", label="general (5,2,4) maxit 1 [budgeted]", deadline=700, budget=True)]
@@ -301,7 +301,7 @@ SPECS["C05"] = dict(
 
 
 def c04_jobs(tier):
-    q = [dict(harness="sym_glue", pattern=r"^(full|fullshift)/|^sym/n5k2m4/[A-Za-z]+/LargestAlge/maxit0/ic$|^sym/n4k2m3/BothEnds/.*/maxit1/ic$|^full2/n3k1m3/|^full2/n4k2m4/.*/icC/then-",
+    q = [dict(harness="sym_glue", pattern=r"^(full|fullshift)/|^sym/n5k2m4/[A-Za-z]+/LargestAlge/maxit0/ic$|^sym/n4k2m3/BothEnds/.*/maxit1/ic$|^full2/n3k1m3/",
               label="symmetric: full-space exactness, rule = set; a second compute() with another rule returns the new rule's set", deadline=200),
          dict(harness="gen_glue", pattern=r"^(genfull|genfullshift)/|^gen/n5k2m4/[A-Za-z]+/LargestMagn/maxit0/ic$|^genfull2/n3k1m3/", label="general: full-space exactness, rule = set; second compute() with another rule", deadline=200),
          dict(harness="c08_qr", pattern=r"^tridiag-exact-shift/n2", label="exact-shift deflation", deadline=100)]
